@@ -7,6 +7,7 @@ import (
 	"log"
 	"os"
 	"path/filepath"
+	"sort"
 	"strings"
 	"testing/fstest"
 	"time"
@@ -45,18 +46,18 @@ type bigInfo struct {
 	dir  bool
 }
 
-func (i bigInfo) Name() string       { return i.name }
-func (i bigInfo) Size() int64        { return i.size }
+func (i bigInfo) Name() string { return i.name }
+func (i bigInfo) Size() int64  { return i.size }
 func (i bigInfo) Mode() iofs.FileMode {
 	if i.dir {
 		return iofs.ModeDir | 0o755
 	}
 	return 0o644
 }
-func (i bigInfo) ModTime() time.Time         { return time.Unix(1e9, 0) }
-func (i bigInfo) IsDir() bool                { return i.dir }
-func (i bigInfo) Sys() any                   { return nil }
-func (i bigInfo) Type() iofs.FileMode        { return i.Mode().Type() }
+func (i bigInfo) ModTime() time.Time           { return time.Unix(1e9, 0) }
+func (i bigInfo) IsDir() bool                  { return i.dir }
+func (i bigInfo) Sys() any                     { return nil }
+func (i bigInfo) Type() iofs.FileMode          { return i.Mode().Type() }
 func (i bigInfo) Info() (iofs.FileInfo, error) { return i, nil }
 
 type bigDir struct {
@@ -86,8 +87,10 @@ func (b *bigFS) Open(name string) (iofs.File, error) {
 	}
 	return nil, &iofs.PathError{Op: "open", Path: name, Err: iofs.ErrNotExist}
 }
-func (f *bigFile) Stat() (iofs.FileInfo, error) { return bigInfo{name: f.fs.name, size: f.fs.size}, nil }
-func (f *bigFile) Close() error                 { return nil }
+func (f *bigFile) Stat() (iofs.FileInfo, error) {
+	return bigInfo{name: f.fs.name, size: f.fs.size}, nil
+}
+func (f *bigFile) Close() error { return nil }
 func (f *bigFile) Read(p []byte) (int, error) {
 	if f.pos >= f.fs.size {
 		return 0, io.EOF
@@ -370,6 +373,32 @@ func c16Run(c core.Case, env *core.Env) core.Result {
 	return res
 }
 
+// shortFS delivers file contents in small pieces of varying sizes, as any io.Reader may.
+type shortFS struct{ inner iofs.FS }
+type shortFile struct {
+	iofs.File
+	k int
+}
+
+func (s shortFS) Open(name string) (iofs.File, error) {
+	f, err := s.inner.Open(name)
+	if err != nil {
+		return nil, err
+	}
+	if st, e := f.Stat(); e == nil && st.IsDir() {
+		return f, nil
+	}
+	return &shortFile{File: f}, nil
+}
+func (f *shortFile) Read(p []byte) (int, error) {
+	lim := []int{1, 7777, 100, 32767, 5, 40000}[f.k%6]
+	f.k++
+	if len(p) > lim {
+		p = p[:lim]
+	}
+	return f.File.Read(p)
+}
+
 // c16Mutations: CompareFS on in-memory trees: equal pairs and every single-point mutation.
 func c16Mutations(res *core.Result, r gen.R, n int, fail func(rule, cause, f string, a ...any)) {
 	for it := 0; it < n; it++ {
@@ -383,15 +412,6 @@ func c16Mutations(res *core.Result, r gen.R, n int, fail func(rule, cause, f str
 				base[nd.Path] = &fstest.MapFile{Data: nd.Content(), Mode: 0o644}
 			}
 		}
-		clone := func() fstest.MapFS {
-			c := fstest.MapFS{}
-			for k, v := range base {
-				cp := *v
-				cp.Data = append([]byte(nil), v.Data...)
-				c[k] = &cp
-			}
-			return c
-		}
 		var files, dirs []string
 		for k, v := range base {
 			if v.Mode.IsDir() {
@@ -400,100 +420,162 @@ func c16Mutations(res *core.Result, r gen.R, n int, fail func(rule, cause, f str
 				files = append(files, k)
 			}
 		}
-		check := func(name string, a, b iofs.FS, wantDiff bool) {
-			var e error
-			if pi := core.Guard(func() { e = fsync.CompareFS(a, b) }); pi != nil {
-				fail("compare-panic", pi.Top+":"+pi.Class, "CompareFS panicked on mutation %s: %s", name, pi.Msg)
-				return
+		sort.Strings(files)
+		sort.Strings(dirs)
+		// entries with excluded names, as regular files and as directories, in every directory of the tree:
+		// they must be ignored themselves and must not hide anything else
+		addExcluded := func(m fstest.MapFS, tag byte) {
+			for i, d := range append([]string{"."}, dirs...) {
+				pre := d + "/"
+				if d == "." {
+					pre = ""
+				}
+				m[pre+".DS_Store"] = &fstest.MapFile{Data: []byte{tag, byte(i)}, Mode: 0o644}
+				switch i % 3 {
+				case 0:
+					m[pre+"lost+found"] = &fstest.MapFile{Mode: iofs.ModeDir | 0o755}
+					m[pre+"lost+found/thing"] = &fstest.MapFile{Data: []byte{tag}, Mode: 0o644}
+				case 1:
+					m[pre+"System Volume Information"] = &fstest.MapFile{Data: []byte{tag, tag}, Mode: 0o644}
+				case 2:
+					m[pre+"lost+found"] = &fstest.MapFile{Data: []byte{tag}, Mode: 0o644}
+				}
 			}
-			res.Count("compare.evaluations", 1)
-			if wantDiff && e == nil {
-				fail("compare-missed-difference", name, "CompareFS returned nil although the trees differ by: %s", name)
+		}
+		plain := base
+		for _, ctx := range []string{"plain", "excluded-names-on-both-sides", "excluded-names-in-mutant-only", "excluded-names-in-original-only", "mutant-delivered-in-short-reads"} {
+			base := fstest.MapFS{}
+			for k, v := range plain {
+				base[k] = v
 			}
-			if !wantDiff && e != nil {
-				fail("compare-false-difference", name, "CompareFS reports %v although the trees are equal (%s)", e, name)
+			if ctx == "excluded-names-on-both-sides" || ctx == "excluded-names-in-original-only" {
+				addExcluded(base, 'o')
 			}
-			res.Sig("mut", name, it)
+			clone := func() fstest.MapFS {
+				c := fstest.MapFS{}
+				for k, v := range plain {
+					cp := *v
+					cp.Data = append([]byte(nil), v.Data...)
+					c[k] = &cp
+				}
+				if ctx == "excluded-names-on-both-sides" || ctx == "excluded-names-in-mutant-only" {
+					addExcluded(c, 'm')
+				}
+				return c
+			}
+			check := func(name string, a, b iofs.FS, wantDiff bool) {
+				var e error
+				if pi := core.Guard(func() { e = fsync.CompareFS(a, b) }); pi != nil {
+					fail("compare-panic", pi.Top+":"+pi.Class, "CompareFS panicked on mutation %s: %s", name, pi.Msg)
+					return
+				}
+				res.Count("compare.evaluations", 1)
+				if wantDiff && e == nil {
+					fail("compare-missed-difference", name, "CompareFS returned nil although the trees differ by: %s", name)
+				}
+				if !wantDiff && e != nil {
+					fail("compare-false-difference", name, "CompareFS reports %v although the trees are equal (%s)", e, name)
+				}
+				res.Sig("mut", name, it)
+			}
+			both := func(name string, m fstest.MapFS, wantDiff bool) {
+				if ctx != "plain" {
+					name += " [" + ctx + "]"
+				}
+				var mm iofs.FS = m
+				if ctx == "mutant-delivered-in-short-reads" {
+					mm = shortFS{m}
+				}
+				check(name+" (orig,mutant)", base, mm, wantDiff)
+				check(name+" (mutant,orig)", mm, base, wantDiff)
+			}
+			both("identical", clone(), false)
+			for _, pos := range []string{"first", "middle", "last", "chunk-edge-1", "chunk-edge", "chunk-edge+1"} {
+				m := clone()
+				f := "chunky.bin"
+				d := m[f].Data
+				off := map[string]int{"first": 0, "middle": len(d) / 2, "last": len(d) - 1, "chunk-edge-1": 32767, "chunk-edge": 32768, "chunk-edge+1": 32769}[pos]
+				d[off] ^= 1
+				both("byte-flipped-"+pos, m, true)
+			}
+			{
+				m := clone()
+				f := gen.Pick(r, files)
+				m[f].Data = m[f].Data[:len(m[f].Data)-1]
+				both("file-shortened-by-1", m, true)
+			}
+			{
+				m := clone()
+				f := gen.Pick(r, files)
+				m[f].Data = append(m[f].Data, 0)
+				both("file-lengthened-by-1", m, true)
+			}
+			{
+				m := clone()
+				delete(m, gen.Pick(r, files))
+				both("entry-missing", m, true)
+			}
+			{
+				m := clone()
+				m["src/extra.file"] = &fstest.MapFile{Data: []byte("x"), Mode: 0o644}
+				both("extra-entry", m, true)
+			}
+			// an extra entry in every directory, sorting before and after everything else there
+			for _, d := range append([]string{"."}, dirs...) {
+				pre := d + "/"
+				if d == "." {
+					pre = ""
+				}
+				for _, nm := range []string{"!first", "zzzz-last"} {
+					m := clone()
+					m[pre+nm] = &fstest.MapFile{Data: []byte("x"), Mode: 0o644}
+					both("extra-entry-"+nm+"-in-each-directory", m, true)
+				}
+			}
+			{
+				m := clone()
+				m["docs/extra-empty-dir"] = &fstest.MapFile{Mode: iofs.ModeDir | 0o755}
+				both("extra-empty-directory", m, true)
+			}
+			{
+				m := clone()
+				f := gen.Pick(r, files)
+				m[f] = &fstest.MapFile{Mode: iofs.ModeDir | 0o755}
+				both("file-replaced-by-directory", m, true)
+			}
+			{
+				m := clone()
+				m["Empty Dir"] = &fstest.MapFile{Data: []byte{}, Mode: 0o644}
+				both("directory-replaced-by-file", m, true)
+			}
+			{
+				m := clone()
+				m["lost+found"] = &fstest.MapFile{Mode: iofs.ModeDir | 0o755}
+				m["lost+found/thing"] = &fstest.MapFile{Data: []byte("zzz"), Mode: 0o644}
+				m["docs/.DS_Store"] = &fstest.MapFile{Data: []byte("q"), Mode: 0o644}
+				both("difference-only-under-excluded-names", m, false)
+			}
+			{
+				m := clone()
+				f := gen.Pick(r, files)
+				d := m[f].Data
+				d[len(d)/3] ^= 0x80
+				both("byte-flipped-random-file", m, true)
+			}
 		}
-		both := func(name string, m fstest.MapFS, wantDiff bool) {
-			check(name+" (orig,mutant)", base, m, wantDiff)
-			check(name+" (mutant,orig)", m, base, wantDiff)
-		}
-		both("identical", clone(), false)
-		for _, pos := range []string{"first", "middle", "last", "chunk-edge-1", "chunk-edge", "chunk-edge+1"} {
-			m := clone()
-			f := "chunky.bin"
-			d := m[f].Data
-			off := map[string]int{"first": 0, "middle": len(d) / 2, "last": len(d) - 1, "chunk-edge-1": 32767, "chunk-edge": 32768, "chunk-edge+1": 32769}[pos]
-			d[off] ^= 1
-			both("byte-flipped-"+pos, m, true)
-		}
-		{
-			m := clone()
-			f := gen.Pick(r, files)
-			m[f].Data = m[f].Data[:len(m[f].Data)-1]
-			both("file-shortened-by-1", m, true)
-		}
-		{
-			m := clone()
-			f := gen.Pick(r, files)
-			m[f].Data = append(m[f].Data, 0)
-			both("file-lengthened-by-1", m, true)
-		}
-		{
-			m := clone()
-			delete(m, gen.Pick(r, files))
-			both("entry-missing", m, true)
-		}
-		{
-			m := clone()
-			m["src/extra.file"] = &fstest.MapFile{Data: []byte("x"), Mode: 0o644}
-			both("extra-entry", m, true)
-		}
-		{
-			m := clone()
-			m["docs/extra-empty-dir"] = &fstest.MapFile{Mode: iofs.ModeDir | 0o755}
-			both("extra-empty-directory", m, true)
-		}
-		{
-			m := clone()
-			f := gen.Pick(r, files)
-			m[f] = &fstest.MapFile{Mode: iofs.ModeDir | 0o755}
-			both("file-replaced-by-directory", m, true)
-		}
-		{
-			m := clone()
-			m["Empty Dir"] = &fstest.MapFile{Data: []byte{}, Mode: 0o644}
-			both("directory-replaced-by-file", m, true)
-		}
-		{
-			m := clone()
-			m["lost+found"] = &fstest.MapFile{Mode: iofs.ModeDir | 0o755}
-			m["lost+found/thing"] = &fstest.MapFile{Data: []byte("zzz"), Mode: 0o644}
-			m["docs/.DS_Store"] = &fstest.MapFile{Data: []byte("q"), Mode: 0o644}
-			both("difference-only-under-excluded-names", m, false)
-		}
-		{
-			m := clone()
-			f := gen.Pick(r, files)
-			d := m[f].Data
-			d[len(d)/3] ^= 0x80
-			both("byte-flipped-random-file", m, true)
-		}
-		_ = dirs
 	}
 	res.Mark("compare mutations")
 }
 
 func init() {
 	core.Register(&core.Check{
-		ID:    "C16",
-		Level: "exploration",
-		Rule: "CopyFileSystem from {os directory, fat32, ext4, iso9660 (Rock Ridge), squashfs} into {fat12, fat16, fat32, ext4}: generated trees (directories incl. an empty one, files of 0..100000 bytes around the 32 KiB compare-chunk edges, FAT-legal long names, the excluded names lost+found/.DS_Store present in the source); the re-opened destination is walked by the harness and matched against the source tree by content and exact names, CompareFS must accept the faithful copy in both argument orders and reject one real byte flip; a file above the 64 MiB streaming threshold is copied from a synthetic generator source (thorough); CompareFS on in-memory trees must return nil exactly for equal trees over every single-point mutation (byte flipped at first/middle/last/32 KiB chunk edges +-1, file shortened/lengthened by one, entry missing, extra file, extra empty directory, file<->directory swap, differences only under excluded names) in both orders; non-trivial = a copy compared or a mutation evaluated; distinct = distinct (pairing, tree) / (mutation, iteration)",
+		ID:          "C16",
+		Level:       "exploration",
+		Rule:        "CopyFileSystem from {os directory, fat32, ext4, iso9660 (Rock Ridge), squashfs} into {fat12, fat16, fat32, ext4}: generated trees (directories incl. an empty one, files of 0..100000 bytes around the 32 KiB compare-chunk edges, FAT-legal long names, the excluded names lost+found/.DS_Store present in the source); the re-opened destination is walked by the harness and matched against the source tree by content and exact names, CompareFS must accept the faithful copy in both argument orders and reject one real byte flip; a file above the 64 MiB streaming threshold is copied from a synthetic generator source (thorough); CompareFS on in-memory trees must return nil exactly for equal trees over every single-point mutation (byte flipped at first/middle/last/32 KiB chunk edges +-1, file shortened/lengthened by one, entry missing, extra file, extra empty directory, file<->directory swap, differences only under excluded names, an extra entry sorting first/last in every directory) in both orders, each also with entries bearing the excluded names (as files and as directories) placed in every directory of both sides, of the mutant only and of the original only, and with one side delivering file contents in short reads of varying sizes; non-trivial = a copy compared or a mutation evaluated; distinct = distinct (pairing, tree) / (mutation, iteration)",
 		Assumptions: []string{"trees are restricted to what every destination can represent (no symlinks, FAT-legal names)", "the destination's own empty lost+found (ext4) is ignored"},
-		MinSigs:   map[string]int{"quick": 150, "thorough": 3000},
-		NeedMarks: []string{"compare mutations", "copy osdir->fat32", "copy squashfs->ext4", "copy iso9660->fat16", "copy ext4->fat12"},
-		CPUSec:    900,
+		MinSigs:     map[string]int{"quick": 150, "thorough": 3000},
+		NeedMarks:   []string{"compare mutations", "copy osdir->fat32", "copy squashfs->ext4", "copy iso9660->fat16", "copy ext4->fat12"},
+		CPUSec:      900,
 		Cases: func(seed int64, tier string) []core.Case {
 			r := gen.New(seed ^ 0xC16)
 			reps, muts := 2, 6
